@@ -74,6 +74,16 @@ def run(rep, tier, seed, b):
         ops = [['dec', x1, True, False]] + ([['dec', both, True, False]] if rng.random() < 0.3 else [])
         fin = [['dec', x2, True, rng.random() < 0.3], ['dec', both, True, False], ['dec', x1, True, False], ['dec', x2, True, False], ['dec', x2, True, False]]
         items.append((ops, fin, ['0', '7']))
+    # earlier decodes that read odd things in index positions (non-index symbols, strings ending inside an index), then
+    # strings whose two- and three-symbol indices matter (a lookup table must not learn from what it is asked)
+    sloppy = ['[C][Branch1][F][C][C]', '[C][C][C][Ring1]', '[C][Branch2][Cl][Br][C]', '[C][C][Ring2][I]', '[C][=Branch1][N+1][O]', '[C][Branch3][Fe][C]', '[C][C][Ring1][nop]']
+    longs = ['[C][Branch2][Ring1][C]' + '[C]' * 17 + '[F]', '[C]' * 20 + '[Ring2][Ring1][C]', '[C][Branch2][Ring1][Ring2]' + '[C]' * 19 + '[O]',
+             '[C]' * 30 + '[Ring2][Ring1][=Branch1][N]', '[C][Branch3][C][Ring1][C]' + '[C]' * 17 + '[Cl]']
+    for _ in range(40 if tier == 'quick' else 800):
+        ops = [['dec', rng.choice(sloppy), rng.random() < 0.2, False] for _ in range(rng.randint(1, 3))]
+        fin = [['dec', x, False, rng.random() < 0.2] for x in rng.sample(longs, 3)]
+        fin.append(fin[-1])
+        items.append((ops, fin, ['0', '7']))
     res = core.pmap('p_c11', 'work', items, chunk=25)
     for (ops, fin, seeds), (runs, mo, ref) in zip(items, res):
         rep.evaluations += 1
@@ -122,7 +132,7 @@ def run(rep, tier, seed, b):
     rep.rule = ('random histories of 3-14 calls (preset / custom / invalid tables, getters, caller mutations of returned and passed objects, earlier encodes and decodes '
                 'that fill the caches) ending in 2-4 translation calls (the last one repeated); each replayed in fresh interpreters under %d hash seeds, compared with the model, '
                 'with a fresh interpreter set only to the final table, and (strict=False encodes) with a pristine interpreter; plus targeted histories: hypervalent molecules across presets, '
-                'atom symbols whose explicit H count is refused under one table and fits the next (both directions), and legacy [..expl] spellings of one atom decoded with different bond prefixes earlier and now. '
+                'atom symbols whose explicit H count is refused under one table and fits the next (both directions), legacy [..expl] spellings of one atom decoded with different bond prefixes earlier and now, and decodes that read non-index symbols in index positions followed by strings with two- and three-symbol indices. '
                 'non-trivial = distinct history with >= 4 state-relevant operations' % (2 if tier == 'quick' else 3))
 
 
